@@ -174,6 +174,9 @@ func (m *tfM) render(t Term, e *strEnv) string {
 				if call, ok := as.X.(TCall); ok && len(call.Args) == 1 {
 					return "self." + g + "(" + m.render(call.Args[0], e) + ")" // the asserted result of Get: what the typed getter returns
 				}
+				if k, ok := m.spineValue(as.X); ok {
+					return "self." + g + "(" + m.render(k, e) + ")"
+				}
 			}
 		}
 		return m.render(x.X, e) + "#" + itoa(x.K)
@@ -195,6 +198,41 @@ func (m *tfM) render(t Term, e *strEnv) string {
 	return m.c.termStr(t)
 }
 
+// spineElem: t is self.spine[k] (a plain or comma-ok load, possibly asserted to a container interface): returns k.
+func (m *tfM) spineElem(t Term) (Term, bool) {
+	for i := 0; i < 3; i++ {
+		switch x := t.(type) {
+		case TProj:
+			if x.K != 0 {
+				return nil, false
+			}
+			t = x.X
+			continue
+		case TAssert:
+			if m.c.Inv().ContByIface(x.To) == nil {
+				return nil, false
+			}
+			t = x.X
+			continue
+		}
+		break
+	}
+	ix, ok := t.(TIndex)
+	if !ok || !m.v.isRecvSpine(ix.X) {
+		return nil, false
+	}
+	return ix.I, true
+}
+
+// spineValue: t is self.spine[k].getVal(): returns k.
+func (m *tfM) spineValue(t Term) (Term, bool) {
+	call, ok := t.(TCall)
+	if !ok || call.Fun == nil || call.Recv == nil || len(call.Args) != 0 || !m.c.isValueAccessor(call.Fun) {
+		return nil, false
+	}
+	return m.spineElem(call.Recv)
+}
+
 // getterAssert: t is the ok flag of `self.Get(k).(Object)` / `.(List)`: returns the name of the typed getter it spells out.
 func (m *tfM) getterAssert(t Term) string {
 	pr, ok := t.(TProj)
@@ -207,7 +245,10 @@ func (m *tfM) getterAssert(t Term) string {
 	}
 	nm, args, ok := m.v.selfCall(as.X)
 	if !ok || nm != "Get" || len(args) != 1 {
-		return ""
+		// Get's own body spelled out: self.spine[k].getVal() (the element possibly seen through its own assertion to the interface)
+		if _, isElem := m.spineValue(as.X); !isElem {
+			return ""
+		}
 	}
 	ct := m.c.Inv().ContByIface(as.To)
 	if ct == nil {
@@ -515,6 +556,14 @@ func (m *tfM) oracleOf(cd Cond, e *strEnv) tfOracle {
 				truth = !truth
 			}
 			return tfOracle{"TypeOf(" + m.render(args[0], e) + ")==" + m.render(k, e), truth}
+		}
+	}
+	// self.spine[k].(Object) ok: the test TypeOf makes for the containers (C12.R3: TypeOf reports them by their interface)
+	if op, T, ok := kindTestOf(t); ok && T != nil {
+		if ct := m.c.Inv().ContByIface(T); ct != nil {
+			if k, isElem := m.spineElem(op); isElem {
+				return tfOracle{"TypeOf(" + m.render(k, e) + ")==" + kindConstName(ct.IsList), truth}
+			}
 		}
 	}
 	if nm, args, ok := m.v.selfCall(t); ok && nm == "KeyExists" && len(args) == 1 {
